@@ -547,6 +547,42 @@ def run(ck):
         if cmd == "indexof" and i.startswith("V") and len(args) >= 2 and args[0] != "":
             units_second.append((args[0], args[1], dec_str(i[1:]), r_lines[k]))
 
+    # ---- call history: every command of this property is a FUNCTION of its arguments, so the same call gives the same result
+    # after any earlier lines of the same run: earlier calls of the same command with the same / other arguments, and - for the
+    # commands that answer with a fresh array (range, split) - earlier results modified in place, emptied or released
+    # (seed C16-w5-m2: range handed out the array of an earlier call with the same bounds again)
+    hist = []
+    good = [k for k, ((cmd, args, grp), m, i) in enumerate(zip(cases, m_r, i_r)) if m != "OOD" and same(m, i) and m[:1] in "VLN"]
+    rng.shuffle(good)
+    by_cmd = {}
+    for k in good:
+        by_cmd.setdefault(cases[k][0], []).append(k)
+    for k in good[:(8000 if thorough else 1200)] + [k2 for c_ in ("range", "split") for k2 in by_cmd.get(c_, [])[:(1500 if thorough else 300)]]:
+        cmd, args, _grp = cases[k]
+        env, pre = [], []
+        for j in range(rng.randint(1, 3)):
+            if rng.random() < 0.6:
+                call = cmd + "".join(" ${v%d}" % t for t in range(len(args)))
+            else:
+                oargs = cases[rng.choice(by_cmd[cmd])][1]
+                call = cmd
+                for a in oargs:
+                    call += " ${e%d}" % len(env)
+                    env.append(a)
+            pre.append("p%d = %s" % (j, call))
+            if cmd in ("range", "split"):
+                pre.append(rng.choice(["array_set ${p%d} 0 zz" % j, "array_pop ${p%d}\narray_push ${p%d} zz" % (j, j), "array_clear ${p%d}" % j,
+                                       "release ${p%d}" % j, "array_push ${p%d} zz" % j, "noop", "array_set ${p%d} 1 zz\nrelease ${p%d}" % (j, j)]))
+        hist.append((k, env, "\n".join(pre) + "\n"))
+    h_lines = ["RH\t%s\t%s\t%s\t%s" % (cases[k][0], enc_list(cases[k][1]), enc_list(env), enc_str(pre)) for (k, env, pre) in hist]
+    h_out = ck.impl(h_lines)
+    for (k, env, pre), line, o in zip(hist, h_lines, h_out):
+        if o != i_r[k]:
+            cmd, args, _grp = cases[k]
+            report("call history: the same call gives another result after earlier lines of the same run", cmd, args, line, m_r[k], o,
+                   THM.get(cmd, []), {"earlier_lines": pre.split("\n"), "earlier_values(e0..)": env, "result_of_the_call_alone": i_r[k]})
+    ck.coverage["call_history_cases"] = len(hist)
+
     # units: substring(s, 0, indexof(s, t)) ++ t is a prefix of s, on the implementation alone
     u_lines = ["R\tsubstring\t" + enc_list([s, "0", idx]) for (s, t, idx, _) in units_second]
     u_out = ck.impl(u_lines)
